@@ -270,3 +270,183 @@ Theorem C13_prv_flags_from_source :
 Proof. exact (conj PrvEmitProofs.check_flags_iff (conj PrvEmitProofs.registered_flags_pass PrvEmitProofs.system_flags_registered)). Qed.
 Print Assumptions C13_prv_flags_from_source.
 (* ==== end of block (unit prv) ==== *)
+
+(* ==== emulator main loop from source (unit emuloop) ==== *)
+(* The top-level SEQUENCING of the emulator is regenerated from src/emu/emu.c (emu_step, set_current, emu_connect,
+   emu_finish, emu_init), model.c (model_event, model_connect, model_create, model_finish), recorder.c
+   (recorder_advance, recorder_finish), pv/pvt.c (pvt_advance, pvt_close) and pv/prv.c (prv_advance, prv_close) into
+   Gen/EmuLoop_gen.v on every run, over Emu/EmuLoopPre.v, whose primitives carry the meaning of the existing models
+   (player_step = PlayerDefs.pstep, the models' event hooks = EmuCoreDefs.core_step on MarkDefs.decode_all for that one
+   model, bay_propagate = the emission rule half of EmuCoreDefs.step followed by the PRV emit callbacks
+   PvDefs.rec_write, struct prv / pvt / recorder = PvDefs).
+   C13_emu_step_from_source: for a delivered event (player_step returned 0, the stream belongs to thread `who`), in a
+   state where no channel is dirty, the generated emu_step is exactly one iteration of PvDefs.pv_run_from
+   (EmuLoopRelDefs.pv_iter, C13_emu_loop_iteration): recorder_advance to the event's dclock (refused when it goes
+   backwards), the handler of the model of the event's first byte on the event decoded with the enabled models
+   (refused when that model is not registered / not enabled: C13_emu_step_not_enabled, the emulator-level form of
+   C12_model_not_enabled), the propagation, the PRV lines written at the new time; every refusal is an error, never
+   0 or +1.  +1 ("finished") only when the player has no more events (C13_emu_step_end); a player error or a stream
+   of no thread is an error. *)
+From OV Require Emu.PlayerDefs Emu.PvDefs Emu.EmuLoopPre Emu.EmuLoopRelDefs Gen.EmuLoop_gen Proofs.EmuLoopProofs Proofs.PvThms.
+
+Theorem C13_emu_step_from_source : forall sx st e pst' who cst,
+  PlayerDefs.pstep true (EmuLoopPre.en_offs sx) (EmuLoopPre.es_player st) = PlayerDefs.SEmit e pst' ->
+  EmuLoopPre.en_lpt sx (PlayerDefs.o_id e) = Some who ->
+  0 <= EmuLoopRelDefs.model_of sx e < 256 -> EmuLoopRelDefs.models_wf sx st ->
+  EmuLoopPre.es_models st = EmuLoopPre.MSem cst None ->
+  EmuLoop_gen.emu_step tt sx st =
+  match EmuLoopRelDefs.pv_iter (EmuLoopPre.en_sx sx) cst (EmuLoopPre.es_rec st) (PlayerDefs.o_dclock e) who
+          (EmuLoopRelDefs.event_of sx (EmuLoopPre.es_enabled st) e) with
+  | Ok (cst', r') =>
+    Ok (0, EmuLoopPre.with_models (EmuLoopPre.with_rec (EmuLoopRelDefs.delivered st pst' e who) r') (EmuLoopPre.MSem cst' None))
+  | Err _ => Err EmuLoopPre.E_FAIL
+  end.
+Proof. exact EmuLoopProofs.emu_step_from_source. Qed.
+Print Assumptions C13_emu_step_from_source.
+
+(* pv_iter is the body of PvDefs.pv_run_from *)
+Theorem C13_emu_loop_iteration : forall sx st r t0 tm who ev rest,
+  PvDefs.pv_run_from sx st r t0 ((tm, who, ev) :: rest) =
+  match EmuLoopRelDefs.pv_iter sx st r (tm - t0) who ev with
+  | Err e => Err e
+  | Ok (st1, r2) => PvDefs.pv_run_from sx st1 r2 t0 rest
+  end.
+Proof. exact EmuLoopProofs.pv_run_from_iter. Qed.
+Print Assumptions C13_emu_loop_iteration.
+
+Theorem C13_emu_step_not_enabled : forall sx st e pst' who,
+  PlayerDefs.pstep true (EmuLoopPre.en_offs sx) (EmuLoopPre.es_player st) = PlayerDefs.SEmit e pst' ->
+  EmuLoopPre.en_lpt sx (PlayerDefs.o_id e) = Some who ->
+  0 <= EmuLoopRelDefs.model_of sx e < 256 -> EmuLoopRelDefs.models_wf sx st -> EmuLoopRelDefs.clean st ->
+  memz (EmuLoopRelDefs.model_of sx e) (EmuLoopPre.es_enabled st) = false ->
+  exists x, EmuLoop_gen.emu_step tt sx st = Err x.
+Proof. exact EmuLoopProofs.emu_step_not_enabled. Qed.
+Print Assumptions C13_emu_step_not_enabled.
+
+Theorem C13_emu_step_end : forall sx st,
+  PlayerDefs.pstep true (EmuLoopPre.en_offs sx) (EmuLoopPre.es_player st) = PlayerDefs.SDone ->
+  EmuLoop_gen.emu_step tt sx st = Ok (1, EmuLoopPre.with_finished st 1).
+Proof. exact EmuLoopProofs.emu_step_end. Qed.
+Print Assumptions C13_emu_step_end.
+
+Theorem C13_emu_step_player_error : forall sx st v,
+  PlayerDefs.pstep true (EmuLoopPre.en_offs sx) (EmuLoopPre.es_player st) = PlayerDefs.SErr v ->
+  EmuLoop_gen.emu_step tt sx st = Err EmuLoopPre.E_FAIL.
+Proof. exact EmuLoopProofs.emu_step_player_error. Qed.
+Print Assumptions C13_emu_step_player_error.
+
+Theorem C13_emu_step_unknown_stream : forall sx st e pst',
+  PlayerDefs.pstep true (EmuLoopPre.en_offs sx) (EmuLoopPre.es_player st) = PlayerDefs.SEmit e pst' ->
+  EmuLoopPre.en_lpt sx (PlayerDefs.o_id e) = None -> EmuLoop_gen.emu_step tt sx st = Err EmuLoopPre.E_FAIL.
+Proof. exact EmuLoopProofs.emu_step_unknown_stream. Qed.
+Print Assumptions C13_emu_step_unknown_stream.
+
+(* emu_finish: the finish hooks of the enabled models in slot order (end-of-trace checks, task types into the PCF)
+   BEFORE the recorder is closed; then both PVTs are closed as PvDefs.pvt_close says: prv_close seeks to 0 and rewrites
+   the header with the time the LAST recorder_advance left in struct prv (C13_advance_sets_time;
+   C13_close_rewrites_header / C13_header_duration are about exactly this PvDefs.prv_close), then the PCF and the ROW
+   file are written.  A failing hook or a failing close gives an error. *)
+Theorem C13_emu_finish_from_source : forall sx st,
+  EmuLoopRelDefs.models_wf sx st -> EmuLoopPre.es_io st = (EmuLoopPre.io0 :: EmuLoopPre.io0 :: nil) ->
+  EmuLoop_gen.emu_finish tt sx st =
+  match PvDefs.foldr (fun r m => EmuLoopPre.en_finish sx m (EmuLoopPre.core_of (EmuLoopPre.es_models st)) r)
+          (EmuLoopRelDefs.finish_order sx st) (EmuLoopPre.es_rec st) with
+  | Err _ => Err EmuLoopPre.E_FAIL
+  | Ok r2 =>
+    match PvDefs.pvt_close (PvDefs.rc_th r2), PvDefs.pvt_close (PvDefs.rc_cpu r2) with
+    | Ok fth, Ok fcpu => Ok (tt, EmuLoopRelDefs.closed_state (EmuLoopPre.with_rec st r2) (PvDefs.f_row fth) (PvDefs.f_row fcpu))
+    | _, _ => Err EmuLoopPre.E_FAIL
+    end
+  end.
+Proof. exact EmuLoopProofs.emu_finish_from_source. Qed.
+Print Assumptions C13_emu_finish_from_source.
+
+Theorem C13_emu_finish_files : forall sx st st',
+  EmuLoopRelDefs.models_wf sx st -> EmuLoopPre.es_io st = (EmuLoopPre.io0 :: EmuLoopPre.io0 :: nil) ->
+  EmuLoop_gen.emu_finish tt sx st = Ok (tt, st') ->
+  exists r2 fth fcpu,
+    PvDefs.foldr (fun r m => EmuLoopPre.en_finish sx m (EmuLoopPre.core_of (EmuLoopPre.es_models st)) r)
+      (EmuLoopRelDefs.finish_order sx st) (EmuLoopPre.es_rec st) = Ok r2 /\
+    PvDefs.pvt_close (PvDefs.rc_th r2) = Ok fth /\ PvDefs.pvt_close (PvDefs.rc_cpu r2) = Ok fcpu /\
+    EmuLoopRelDefs.closed_as st' 0 fth /\ EmuLoopRelDefs.closed_as st' 1 fcpu /\
+    PvDefs.f_prv fth = PvDefs.prv_close (PvDefs.v_prv (PvDefs.rc_th r2)) /\
+    PvDefs.f_prv fcpu = PvDefs.prv_close (PvDefs.v_prv (PvDefs.rc_cpu r2)).
+Proof. exact EmuLoopProofs.emu_finish_files. Qed.
+Print Assumptions C13_emu_finish_files.
+
+(* with C13_close_rewrites_header: each PRV file on disk after emu_finish is the header for the time the last
+   recorder_advance set, followed by the records written during the run *)
+Theorem C13_emu_finish_header : forall sx st st',
+  EmuLoopRelDefs.models_wf sx st -> EmuLoopPre.es_io st = (EmuLoopPre.io0 :: EmuLoopPre.io0 :: nil) ->
+  EmuLoop_gen.emu_finish tt sx st = Ok (tt, st') ->
+  exists r2,
+    PvDefs.foldr (fun r m => EmuLoopPre.en_finish sx m (EmuLoopPre.core_of (EmuLoopPre.es_models st)) r)
+      (EmuLoopRelDefs.finish_order sx st) (EmuLoopPre.es_rec st) = Ok r2 /\
+    forall (i : nat) v body, EmuLoopPre.get_pvt r2 i = Some v ->
+      PvDefs.pv_file (PvDefs.v_prv v) = PvDefs.prv_header 0 (PvDefs.pv_nrows (PvDefs.v_prv v)) ++ body ->
+      length (PvDefs.prv_header (PvDefs.pv_time (PvDefs.v_prv v)) (PvDefs.pv_nrows (PvDefs.v_prv v))) =
+        length (PvDefs.prv_header 0 (PvDefs.pv_nrows (PvDefs.v_prv v))) ->
+      EmuLoopPre.io_prv (EmuLoopPre.io_at st' i) =
+        Some (PvDefs.prv_header (PvDefs.pv_time (PvDefs.v_prv v)) (PvDefs.pv_nrows (PvDefs.v_prv v)) ++ body).
+Proof. exact EmuLoopProofs.emu_finish_header. Qed.
+Print Assumptions C13_emu_finish_header.
+
+(* emu_connect: the connect hooks of the enabled models in slot order (PvDefs.enabled_order), then one propagation *)
+Theorem C13_emu_connect_from_source : forall sx st, EmuLoopRelDefs.models_wf sx st ->
+  EmuLoop_gen.emu_connect tt sx st =
+  match PvDefs.foldr (fun r m => EmuLoopPre.en_connect sx m r) (EmuLoopRelDefs.connect_order sx st) (EmuLoopPre.es_rec st) with
+  | Ok r => EmuLoopPre.bay_propagate (Some tt) sx (EmuLoopPre.with_rec st r)
+  | Err _ => Err EmuLoopPre.E_FAIL
+  end.
+Proof. exact EmuLoopProofs.emu_connect_from_source. Qed.
+Print Assumptions C13_emu_connect_from_source.
+(* the slot order of model_connect / model_finish is PvDefs.enabled_order (increasing model id), restricted to the
+   models that have the hook (the kernel model has no finish hook) *)
+Theorem C13_emu_slot_order : forall sx st,
+  (forall m, memz m (EmuLoopPre.es_enabled st) = true -> memz m PvDefs.model_order = true) ->
+  EmuLoopRelDefs.connect_order sx st =
+    filter (fun m => EmuLoopPre.en_hook sx m EmuLoopPre.HConnect) (PvDefs.enabled_order (EmuLoopPre.es_enabled st)) /\
+  EmuLoopRelDefs.finish_order sx st =
+    filter (fun m => EmuLoopPre.en_hook sx m EmuLoopPre.HFinish) (PvDefs.enabled_order (EmuLoopPre.es_enabled st)).
+Proof. exact EmuLoopProofs.connect_order_is_enabled_order. Qed.
+Print Assumptions C13_emu_slot_order.
+
+(* the whole replay: ovniemu's `while ((ret = emu_step(&emu)) == 0)` (EmuLoopProofs.emu_run) on the events the player
+   delivers (PlayerDefs.ploop) is PvDefs.pv_run_from on those events (Paraver time = dclock, thread of the stream, event
+   decoded with the enabled models), error for error; it ends with +1 (`finished`) only when pv_run_from accepts *)
+Theorem C13_emu_run_from_source : forall fuel sx st cst oevs,
+  PlayerDefs.ploop true (EmuLoopPre.en_offs sx) fuel (EmuLoopPre.es_player st) = (oevs, PlayerDefs.VOk) ->
+  (forall e, In e oevs -> EmuLoopPre.en_lpt sx (PlayerDefs.o_id e) <> None /\ 0 <= EmuLoopRelDefs.model_of sx e < 256) ->
+  EmuLoopRelDefs.models_wf sx st -> EmuLoopPre.es_models st = EmuLoopPre.MSem cst None ->
+  match PvDefs.pv_run_from (EmuLoopPre.en_sx sx) cst (EmuLoopPre.es_rec st) 0 (EmuLoopProofs.evs_of sx (EmuLoopPre.es_enabled st) oevs) with
+  | Ok (cst', r') => exists st', EmuLoopProofs.emu_run fuel sx st = Ok st' /\ EmuLoopPre.es_models st' = EmuLoopPre.MSem cst' None /\
+                                 EmuLoopPre.es_rec st' = r' /\ EmuLoopPre.es_finished st' = 1
+  | Err _ => exists x, EmuLoopProofs.emu_run fuel sx st = Err x
+  end.
+Proof. exact EmuLoopProofs.emu_run_is_pv_run. Qed.
+Print Assumptions C13_emu_run_from_source.
+
+(* emu_init: the start-up callees run in the order of the C (0 memset, 1 emu_args_init, 2 trace_load, 3 system_init,
+   4 recorder_init, 5 bay_init, 6 system_connect, 7 player_init, 8 model_init, 9 models_register, 10 model_probe, then the
+   translated model_create) and the first failing one stops it with an error *)
+Theorem C13_emu_init_from_source : forall sx st argc argv, EmuLoopRelDefs.models_wf sx st ->
+  EmuLoop_gen.emu_init tt argc argv sx st =
+  if forallb (EmuLoopPre.en_init_ok sx) EmuLoopProofs.init_steps
+  then Ok (tt, EmuLoopPre.with_log st ((10 :: 9 :: 8 :: 7 :: 6 :: 5 :: 4 :: 3 :: 2 :: 1 :: 0 :: nil)%nat ++ EmuLoopPre.es_log st))
+  else Err EmuLoopPre.E_FAIL.
+Proof. exact EmuLoopProofs.emu_init_from_source. Qed.
+Print Assumptions C13_emu_init_from_source.
+
+(* the trace of C13's worked example (2 streams, nOS-V + marks) through the GENERATED emu_connect / emu_step loop /
+   emu_finish, with the per-model hooks of PvDefs: the six files are those PvDefs.emulate computes *)
+Example C13_ex_main_loop_files :
+  match EmuLoopProofs.ex_main PvThms.pv_ex_en, PvThms.pv_ex_out with
+  | Ok st, Ok out => EmuLoopProofs.ex_files st 0 = Some (EmuLoopProofs.files_of (PvDefs.o_th out)) /\
+                     EmuLoopProofs.ex_files st 1 = Some (EmuLoopProofs.files_of (PvDefs.o_cpu out))
+  | _, _ => False
+  end.
+Proof. vm_compute. split; reflexivity. Qed.
+(* the same trace with only the ovni model enabled: the first nOS-V event stops emu_step with an error *)
+Example C13_ex_main_loop_not_enabled : EmuLoopProofs.ex_main (M_OVNI :: nil) = Err EmuLoopPre.E_FAIL.
+Proof. vm_compute. reflexivity. Qed.
+(* ==== end of block (unit emuloop) ==== *)
